@@ -893,7 +893,7 @@ def custom_run(pid, tier, seed, replay=None):
             "trusted_base": ["Coq 8.16.1 kernel (vm_compute used in the witness lemmas; no native_compute)",
                              "extraction (ExtrOcamlBasic only) + model/driver.ml, cross-checked by in-Coq vm_compute on a sample",
                              "hand-written model tied to /repo by the differential correspondence below"] + TRUSTED,
-            "evaluations": total_evals, "generated": total_cases, "type_definitions_compiled": n_shapes,
+            "evaluations": total_evals, "generated": total_cases, "type_definitions_compiled": n_shapes, "programs": n_shapes,
             "distinct_nontrivial": len(nontrivial), "rule": RULE,
             "samples": samples if samples else [{"note": "no case could be run"}],
             "distribution": dist, "per_config": per_config, "disagreements_checked": len(disagreements),
